@@ -64,7 +64,7 @@ def seq_spec(prop, sweep, quick, thorough, rule, after_op=None, tier_kw=None, pr
             rule,
             "sequential-history",
             components_stub=STUBS,
-            fault_kinds=["op_reopen", "op_clear", "recovered_crash_states", "abandoned_requests", "requests_retried_after_recovery", "input_stream_faults"],
+            fault_kinds=["op_reopen", "op_clear", "recovered_crash_states", "abandoned_requests", "requests_retried_after_recovery", "input_stream_faults", "query_requests_abandoned", "rule_installations_abandoned", "clear_with_unfinished_request", "clear_requests_failing_half_way"],
             assumptions=ASSUME,
             **kw
         )
@@ -140,7 +140,7 @@ register(
         "seeded states (file back-end on SimDisk, memory back-end, or - 30% of file runs - the states a process finds after a crash cut of the write log) x every read-only entry point (~45 methods, present / absent / unknown arguments, valid and stale tokens, generators abandoned half-way); non-trivial when the state holds pages and webentities; distinct = distinct event digests",
         "sequential-history + read-only call sweep",
         components_stub=STUBS,
-        fault_kinds=["queries", "query_refused", "query_returned"],
+        fault_kinds=["queries", "query_refused", "query_returned", "crash_states_queried", "crash_states_with_one_store_behind"],
         assumptions=["the simulated disk's write log sees every write the library issues (all file I/O goes through the seam)"],
     )
 )
